@@ -94,6 +94,8 @@ def t1(s):
     r0 = ledger.t1_common(s)
     if r0:
         return r0
+    if ledger.is_str_slice(s):
+        return None
     if k == "divzero":
         d = x.get("divisor")
         if d is not None and is_const(d) and d[1] not in (0, False):
@@ -475,6 +477,7 @@ def run(ctx):
 
     # ---- R8
     r8(ctx, p, cg, K)
+    r8_ivar(ctx, p)
     r9(ctx, p)
 
     ctx.note("not decided: finiteness of samples in general / NaN only after runaway growth (numerical property of a recursive filter); R8 decides only the 0/0-from-an-empty-count part of `never out of nothing`")
@@ -949,6 +952,89 @@ def r8(ctx, p, cg, K):
     for k_, ent_ in enumerate(FDIV_T2):
         if k_ not in used:
             ctx.note("FDIV_T2 entry not matched by any site: %s /%s/" % (ent_[0], ent_[1]))
+
+
+IVAR_BOUND = 1e50
+
+
+def _num(c):
+    if c[0] != "c" or isinstance(c[1], bool):
+        return None
+    try:
+        return float(c[1])
+    except (TypeError, ValueError, OverflowError):
+        return None
+
+
+def r8_ivar(ctx, p):
+    """C01-R8, bounded inverse variance: MLPG multiplies the inverse variances with window
+    coefficients and means and the LDL factorisation multiplies up to three band entries, so
+    `NaN never out of nothing` needs |ivar| bounded far below sqrt3(f64::MAX) for *every* variance,
+    0 included.  Every value `with_ivar` can return as the second component is a constant of
+    magnitude <= 1e50 or 1/x (x.recip()) behind a test |x| >= K with 1/K <= 1e50.  (Seed C01i
+    replaced the 1e38 cap by f64::MAX: a zero variance then overflows the sums to inf and the
+    solve returns inf/inf.)"""
+    b = cm.body_or_fail(ctx, p, "C01-R8", "model::mean_vari::MeanVari::with_ivar")
+    if b is None:
+        return
+    eb = ExprBuilder(b)
+
+    def alts(e, bb, depth=0):
+        """(expression, block) alternatives of a value: multi-definition locals through each definition"""
+        if e[0] == "var" and isinstance(e[1], int) and depth < 6:
+            out = []
+            for dbb, idx, item in b.defs().get(e[1], []):
+                if b.is_cleanup(dbb):
+                    continue
+                eb.at(dbb, idx)
+                d = eb.call(item) if idx == "term" else eb.rvalue(item["rv"])
+                out.extend(alts(d, dbb, depth + 1))
+            return out or [(e, bb)]
+        return [(e, bb)]
+    n = 0
+    for rbb, e, item in paths.return_exprs(b, eb):
+        if not (e[0] == "agg" and len(e[2]) == 2):
+            ctx.fail("C01-R8", b.path, "return value", "with_ivar returns %s: not a (mean, inverse variance) pair" % show(e)[:80], b.loc())
+            continue
+        for v, vbb in alts(e[2][1], rbb):
+            n += 1
+            if is_const(v) and _num(v) is not None:
+                if abs(_num(v)) <= IVAR_BOUND:
+                    ctx.ok("C01-R8", "with_ivar: constant inverse variance %g, magnitude <= %g" % (_num(v), IVAR_BOUND), b.loc())
+                else:
+                    ctx.fail("C01-R8", b.path, "inverse-variance cap", "with_ivar can return the constant %g: products of inverse variances, window coefficients and means (and of up to three band entries in the LDL factorisation) overflow to inf, and the solve returns inf/inf = NaN out of finite inputs (the cap has to stay far below the cube root of f64::MAX; <= %g is accepted)" % (_num(v), IVAR_BOUND), b.loc())
+                continue
+            x = None
+            if v[0] == "bin" and v[1] == "Div" and is_const(v[2]) and _num(v[2]) is not None and abs(_num(v[2])) <= 1.0:
+                x = v[3]
+            elif v[0] == "call" and v[1].endswith("::recip") and len(v[2]) == 1:
+                x = v[2][0]
+            if x is None:
+                ctx.fail("C01-R8", b.path, "inverse variance", "with_ivar can return %s as the inverse variance: neither a constant nor 1/x behind a magnitude test" % show(v)[:80], b.loc())
+                continue
+            ok = False
+            for g in paths.guards(b, vbb, eb):
+                if g[0] not in ("true", "false"):
+                    continue
+                pos, c = paths.bool_atoms(g)
+                if c[0] != "bin" or c[1] not in ("Lt", "Le", "Gt", "Ge"):
+                    continue
+                l, r, op = c[2], c[3], c[1]
+                if is_const(l) and not is_const(r):
+                    l, r, op = r, l, {"Lt": "Gt", "Le": "Ge", "Gt": "Lt", "Ge": "Le"}[op]
+                if not (is_const(r) and _num(r) is not None and _num(r) > 0):
+                    continue
+                if not (l[0] == "call" and l[1].endswith("::abs") and len(l[2]) == 1 and canon(l[2][0]) == canon(x)):
+                    continue
+                # holds on this edge: |x| >= K  (Ge/Gt true, Lt/Le false)
+                lower = (pos and op in ("Ge", "Gt")) or (not pos and op in ("Lt", "Le"))
+                if lower and 1.0 / _num(r) <= IVAR_BOUND:
+                    ok = True
+                    ctx.ok("C01-R8", "with_ivar: 1/x only where |x| >= %g, so |1/x| <= %g" % (_num(r), 1.0 / _num(r)), b.loc())
+                    break
+            if not ok:
+                ctx.fail("C01-R8", b.path, "inverse variance", "with_ivar returns 1/%s with no dominating test |%s| >= K (K > 0, 1/K <= %g): a tiny variance gives an inverse that overflows the MLPG sums" % (show(x), show(x), IVAR_BOUND), b.loc())
+    ctx.anchor("C01-R8", "values with_ivar can return as the inverse variance", n, 3)
 
 
 def r7(ctx, p):
